@@ -363,6 +363,29 @@ def gen_c09_client(rng, thorough=False):
     return scs
 
 
+def gen_cabi_tls_client(rng, thorough=False):
+    """the TLS client channel created through the C ABI: dns_name / allow_server_name_wildcard / certificate mode / minimum
+    version must mean what the Rust configuration means (name verification is off only for wildcard flag AND name "*")"""
+    scs = []
+    grid = [("ca", "ca1", "test.com", False), ("ca", "ca1", "test.com", True), ("ca", "ca1", "other.example", False),
+            ("ca", "ca1", "other.example", True), ("ca", "ca1", "*", True), ("ca", "ca2", "test.com", True),
+            ("self", "ss_a", "ignored.example", False), ("self", "ss_a", "*", True)]
+    certs = SERVER_CERTS if thorough else ["server", "server_othername", "server_ca2", "ss_a", "ss_b"]
+    for (mode, trust, dns, wildcard) in grid:
+        for min_tls in ("1.2", "1.3"):
+            steps = []
+            for cert in certs:
+                for vs in (VERSION_SETS if thorough else VERSION_SETS[:2]):
+                    steps.append({"op": "tlsc", "tls": {"cert": cert, "versions": vs}})
+            sc = scenario(len(scs), steps, variant="tls_client", mode=mode, min_tls=min_tls, peer_cert=trust, api="cabi",
+                          tag=f"cabi-tls-client-{mode}-{trust}-{dns}-wildcard{wildcard}-min{min_tls}")
+            sc["dns"] = dns
+            sc["wildcard"] = wildcard
+            sc["local_cert"] = "client_operator" if mode == "ca" else "ss_b"
+            scs.append(sc)
+    return scs
+
+
 def gen_tls_client_stall():
     sc = scenario(0, [{"op": "tlsc", "silent": True}, {"op": "tlsc", "silent": True}], variant="tls_client", mode="ca", min_tls="1.2",
                   peer_cert="ca1", tag="tls-client-handshake-stall")
